@@ -732,6 +732,9 @@ type Finding struct {
 // assertCompWF: every value stored in a heap component is well typed and refers only to allocated
 // objects (a global invariant of Go memory; the obligations on stores and arithmetic keep it).
 func (vc *VC) assertCompWF(term, name, alloc string) {
+	if name == bufArrComp || name == poolBufsComp || name == poolArraysComp {
+		return // the pool invariant is asserted for the three components together (poolWF)
+	}
 	vt := vc.compTypes[name]
 	if vt == nil {
 		return
